@@ -5,6 +5,8 @@ correspondence: spy containers log every dunder call (mutators included) on all 
                 rejecting paths included; one-shot iterators/generators are re-read after the check;
                 the model's protocol trace must equal the spy log
 """
+import json
+
 from harness import corecorr as C
 from harness import coreir as IR
 from harness.common import CoqFailure
@@ -91,8 +93,99 @@ def run(ctx):
                           'a check of a ChainMap inserted a key into its defaultdict child') == 'violation':
                 failures += 1
             break
+    # checks the import hook adds after annotated assignments: the module must see its iterators, queues and default
+    # dictionaries exactly as the same module imported without the hook sees them
+    hook = hooked_assignment_probe(ctx)
+    ctx.extra['hooked_assignment_probe'] = hook if 'probe_failed' in hook else {k: 'same' if v[0] == v[1] else v for k, v in hook.items()}
+    ctx.evaluations += len(hook)
+    if 'probe_failed' in hook:
+        failures += 1
+        ctx.report({'clause': 'hooked_assignment_probe_failed'}, hook, 'the probe of hooked annotated assignments crashed')
+    else:
+        for name, (plain, hooked) in sorted(hook.items()):
+            if plain != hooked:
+                if ctx.report({'clause': 'hooked_assignment_consumes', 'what': name}, {'without_hook': plain, 'with_hook': hooked},
+                              'the check added after an annotated assignment consumed or changed what the module works with') == 'violation':
+                    failures += 1
+                    break
     if proof_err is not None and not failures:
         ctx.broken(f'{PROP} ({proof_err.what})', proof_err.log)
+
+
+HOOKED_MODULE = r"""
+from collections import defaultdict, deque
+from collections.abc import Generator, Iterator
+class H: pass
+holder = H()
+R = {}
+def skip_header(it):
+    next(it)
+    return it
+src = iter([0, 1, 2, 3, 4, 5])
+holder.stream: Iterator[int] = skip_header(src)
+R['attr_iterator'] = [holder.stream is src, list(src)]
+gen = (c for c in 'abcdef')
+holder.gen: Generator[str, None, None] = skip_header(gen)
+R['attr_generator'] = list(gen)
+gen2 = (c for c in 'abcdef')
+holder.first: str = next(gen2)
+R['attr_generator_item'] = [holder.first, list(gen2)]
+jobs = deque(['j1', 'j2', 'j3'])
+holder.job: str = jobs.popleft()
+R['attr_container_item'] = [holder.job, list(jobs)]
+keys = iter('ab')
+registry = defaultdict(lambda: len(registry))
+holder.ident: int = registry[next(keys)]
+R['attr_defaultdict'] = [holder.ident, dict(registry)]
+x: Iterator[int] = skip_header(iter([7, 8, 9]))
+R['name_iterator'] = list(x)
+y: int = registry['c']
+R['name_defaultdict'] = dict(registry)
+class K:
+    def __init__(self, lines):
+        self.header: str = next(lines)
+        self.lines: Iterator[str] = lines
+k = K(iter(['h', 'r1', 'r2']))
+R['attr_self_in_method'] = [k.header, list(k.lines)]
+def local(it):
+    first: int = next(it)
+    rest: Iterator[int] = it
+    return [first, list(rest)]
+R['local_names'] = local(iter([1, 2, 3]))
+nums = iter([1, 'y', 'z'])
+try:
+    next(nums)
+    holder.num: int = next(nums)
+except Exception as e:
+    R['attr_rejected'] = [type(e).__name__ if 'Violation' not in type(e).__name__ else 'violation', list(nums)]
+else:
+    R['attr_rejected'] = ['stored', list(nums)]
+"""
+
+
+def hooked_assignment_probe(ctx):
+    import os
+    import shutil
+    import subprocess
+    from harness.common import PY, impl_env
+    root = os.path.join(ctx.workdir, 'c10hook')
+    shutil.rmtree(root, ignore_errors=True)
+    for pkg in ('c10plain', 'c10hooked'):
+        os.makedirs(os.path.join(root, pkg))
+        open(os.path.join(root, pkg, '__init__.py'), 'w').write('')
+        open(os.path.join(root, pkg, 'scen.py'), 'w').write(HOOKED_MODULE)
+    code = ('import json, sys\nsys.dont_write_bytecode = True\nsys.path.insert(0, %r)\n'
+            'from beartype.claw import beartype_package\nbeartype_package("c10hooked")\n'
+            'import c10plain.scen as a, c10hooked.scen as b\n'
+            'out = {k: [a.R[k], b.R.get(k)] for k in a.R}\n'
+            'out["attr_rejected"] = [["stored", a.R["attr_rejected"][1]], ["stored" if b.R["attr_rejected"][0] == "violation" else b.R["attr_rejected"][0], b.R["attr_rejected"][1]]]\n'
+            'print(json.dumps(out))\n' % root)
+    p = subprocess.run([PY, '-c', code], capture_output=True, text=True, env=impl_env(), timeout=120)
+    shutil.rmtree(root, ignore_errors=True)
+    try:
+        return json.loads(p.stdout.strip().splitlines()[-1])
+    except Exception:  # noqa
+        return {'probe_failed': ((p.stderr or '') + ' | ' + (p.stdout or 'no output'))[-900:]}
 
 
 def chainmap_probe():
